@@ -210,6 +210,14 @@ def build_form(b, integrals):
         e = ufl.as_ufl(b.build(itg["expr"]))
         exprs.append(e)
         f = e * build_measure(b, itg, ufl)
+        # "cd": [direction names] -- shape derivatives, left unapplied as CoordinateDerivative nodes around the integrand
+        for dname in itg.get("cd", ()):
+            mesh = b.meshes[int(itg.get("mesh", 0))]
+            dirs = b.__dict__.setdefault("cd_directions", {})
+            key = (dname, int(itg.get("mesh", 0)))
+            if key not in dirs:
+                dirs[key] = ufl.Coefficient(ufl.FunctionSpace(mesh, mesh.ufl_coordinate_element()))
+            f = ufl.derivative(f, ufl.SpatialCoordinate(mesh), dirs[key])
         form = f if form is None else form + f
     return form, exprs
 
